@@ -155,6 +155,18 @@ def infer_sites(prog, slots):
                     if k - 1 < len(t["args"]):
                         for s in slot_hits(slots, b, deep_places(b, t["args"][k - 1])):
                             slots[s]["wakes"].add(b.short)
+    # a closure that wakes its element parameter, handed to an iterator adaptor (for_each / map / filter_map ...) whose
+    # receiver is derived from a slot: `slot.drain(..).for_each(|w| w.wake())`
+    for b in prog.bodies.values():
+        if b.crate in SKIP_CRATES:
+            continue
+        for i, t in b.calls():
+            ks = [k for k in t["f"].get("fns", []) if k in helpers]
+            if not ks or not re.search(r"Iterator::(for_each|map|filter_map|try_for_each|fold|for_each_concurrent)$|Option(<.*>|::<.*>)?::(map|inspect|and_then|into_iter)$", callee(t)):
+                continue
+            for a in t["args"]:
+                for s_ in slot_hits(slots, b, deep_places(b, a, 6)):
+                    slots[s_]["wakes"].add(b.short)
     for b in prog.bodies.values():
         if b.crate in SKIP_CRATES:
             continue
